@@ -385,6 +385,9 @@ func typeAssert(n *node, withResult, withOk bool) {
 			valf := value(f)
 			v, ok := valf.Interface().(valueInterface)
 			defer func() { finish(f, ok) }()
+			if ok && v.node == nil {
+				ok = false // a nil interface value
+			}
 			if !ok {
 				if !withOk {
 					panic(n.cfgErrorf("interface conversion: nil is not %v", typID))
